@@ -23,7 +23,35 @@ def make_sequence(kind, n, rng):
         return [[rng.randrange(9), rng.randrange(9)] for _ in range(n)]  # unhashable
     if kind == "ndarray":
         return [np.array([rng.random(), rng.random()]) for _ in range(n)]
+    if kind == "flaky":  # a lazily computed sequence: reading an element fails once at a few indices (transient fault)
+        return FlakySequence([rng.randrange(-50, 50) for _ in range(n)], {rng.randrange(n) for _ in range(3)} if n else set())
     raise ValueError(kind)
+
+
+class TransientFault(Exception):
+    pass
+
+
+class FlakySequence:
+    """a sequence whose element access raises the first time an index of `fail_once` is read after `arm()`"""
+
+    def __init__(self, items, fail_once):
+        self.items, self.fail_once, self.armed = items, set(fail_once), [False]
+
+    def arm(self):
+        self.armed[0] = True
+
+    def __len__(self):
+        return len(self.items)
+
+    def __iter__(self):
+        return iter(self.items)
+
+    def __getitem__(self, i):
+        if self.armed[0] and i in self.fail_once:
+            self.fail_once.discard(i)
+            raise TransientFault(f"element {i} not available yet")
+        return self.items[i]
 
 
 def gen_history(rng, max_n=12, max_ops=40):
@@ -32,7 +60,7 @@ def gen_history(rng, max_n=12, max_ops=40):
     n = rng.choice([0, 1, 2, 3, 4, 5, 6, 8, max_n, rng.randrange(0, max_n + 1)])
     if rng.random() < 0.05:
         n = rng.randrange(50, 201)
-    kind = rng.choice(["int", "list", "ndarray"])
+    kind = rng.choice(["int", "list", "ndarray", "flaky"])
     ops = []
     outstanding, told = [], set()
     for _ in range(rng.randrange(1, max_ops + 1)):
@@ -93,6 +121,9 @@ def execute(hist, check=None):
     n = hist["n"]
     seq = make_sequence(hist["kind"], n, rng)
     l = SequenceLearner(lambda x: x, seq)
+    flaky = isinstance(seq, FlakySequence)
+    if flaky:
+        seq = l.sequence  # (the learner keeps a shallow copy; faults are shared through `fail_once`)
     lines = [f"seq new {n}"]
     outs = ["ok " + obs_impl(l, n)]
     outstanding = []  # indices handed out by committing asks, not yet told/discarded
@@ -102,7 +133,20 @@ def execute(hist, check=None):
     for op in hist["ops"]:
         if op[0] == "ask":
             _, k, commit = op
-            pts, imps = l.ask(k, tell_pending=commit)
+            if flaky:
+                seq.arm()
+                try:
+                    pts, imps = l.ask(k, tell_pending=commit)
+                except TransientFault:
+                    # the request failed and returned nothing: nothing may have been marked as handed out
+                    seq.armed[0] = False
+                    if check:
+                        check("after", l=l, seq=seq, told=told, outstanding=outstanding)
+                    continue
+                finally:
+                    seq.armed[0] = False
+            else:
+                pts, imps = l.ask(k, tell_pending=commit)
             if check:
                 check("ask", l=l, seq=seq, told=told, outstanding=outstanding, k=k, commit=commit,
                       pts=pts, imps=imps)
@@ -293,7 +337,12 @@ def run(ctx):
     nexh = 0
     for h in exhaustive_histories(ctx.n(4, 5)):
         orc = Oracle()
-        lines, outs = execute_exhaustive(h, orc)
+        try:
+            lines, outs = execute_exhaustive(h, orc)
+        except Exception as e:  # the real code raised on a valid history
+            failures.append({"clause": "no_exception", "signature": f"C17.exception.{type(e).__name__}",
+                             "detail": repr(e), "replay": h})
+            continue
         nexh += 1
         if orc.fail:
             failures.append({"clause": orc.fail[0], "signature": f"C17.{orc.fail[0]}",
@@ -305,7 +354,7 @@ def run(ctx):
     return core.conclude(
         ctx, proof, [corr], failures,
         rule="seeded runner-like histories (asks of any size, out-of-order partial tells, tells of "
-             "never-suggested indices, re-tells, discards; int/list/ndarray elements) plus every delivery "
+             "never-suggested indices, re-tells, discards; int/list/ndarray elements and lazily computed sequences whose element access fails once) plus every delivery "
              "order for n<=4 (quick) / n<=5 (thorough) with a discard at every position; non-trivial = "
              "distinct op-line sequence containing both ask and tell",
         samples=[c["lines"][:12] for c in cases[:3]],
